@@ -71,6 +71,12 @@ func (f *Uniq) Call(s *slip.Scope, args slip.List, depth int) slip.Object {
 			}
 			// Normalize into a separate variable so target keeps its own type
 			// and value for the remaining comparisons.
+			if cmp, ok := exactCompare(args[pos], target); ok {
+				if cmp == 0 {
+					return nil
+				}
+				continue
+			}
 			var nt slip.Object
 			arg, nt = slip.NormalizeNumber(args[pos], target)
 			switch ta := arg.(type) {
